@@ -90,4 +90,5 @@ def main() -> None:
     net.finish("bounded", "1..3 statements with shared subjects/predicates, prefix tables 1..3 / datatype tables 1..3 / name table 8 with quoted triples, frame sizes {1,2,250}, TRIPLES and QUADS",
                "each case = (preset, frame size, statement list); failures are classed `overflow` (known finding D7: more distinct entries than slots in one statement) or `fits`")
 if __name__ == "__main__":
-    main()
+    from common import run_main
+    run_main(main, "C18")
